@@ -22,7 +22,7 @@ package dsn
 //@   prop C18
 //@   nopanic
 //@   requires diagOK(info.DiagnosticCode)
-//@   modifies gRcptFields
+//@   modifies gRcptFields, fsSt, fsData
 //@   ensures info.FinalRecipient == "" || info.Action == "" || info.Status[0] == 0 ==> result != nil
 //@   trusted-ensures result == nil ==> gRcptFields == old(gRcptFields) + 1
 //@   trusted-ensures result != nil ==> gRcptFields == old(gRcptFields)
@@ -30,6 +30,7 @@ package dsn
 //@ func (ReportingMTAInfo).WriteTo
 //@   prop C18
 //@   nopanic
+//@   modifies fsSt, fsData
 //@   ensures info.ReportingMTA == "" ==> result != nil
 //@   assert-call textproto.WriteHeader : info.ReportingMTA != ""
 
@@ -39,7 +40,7 @@ package dsn
 //@   nopanic
 //@   requires w != nil
 //@   requires forall k int :: 0 <= k && k < len(rcptsInfo) ==> diagOK(rcptsInfo[k].DiagnosticCode)
-//@   modifies gRcptFields
+//@   modifies gRcptFields, fsSt, fsData
 //@   ensures result == nil ==> gRcptFields == old(gRcptFields) + len(rcptsInfo)
 //@   assert-call (ReportingMTAInfo).WriteTo : $info == mtaInfo && $utf8 == utf8
 //@   assert-call (RecipientInfo).WriteTo : $info == rcptsInfo[rangeindex + 1] && $utf8 == utf8 && gRcptFields == old(gRcptFields) + rangeindex + 1
@@ -48,12 +49,13 @@ package dsn
 //@   prop C18
 //@   nopanic
 //@   requires w != nil
-//@   modifies gHdrPart, gHdrParts
+//@   modifies gHdrPart, gHdrParts, fsSt, fsData
 //@   assert-call textproto.WriteHeader : $h == header
 //@   trusted-ensures result == nil ==> gHdrPart == header && gHdrParts == old(gHdrParts) + 1
 //@ func writeHumanReadablePart
 //@   prop C18
 //@   requires w != nil
+//@   modifies fsSt, fsData
 //@   trusted
 
 // GenerateDSN: on success the report header names the envelope addresses, is marked auto-generated and typed
@@ -63,7 +65,7 @@ package dsn
 //@   prop C18
 //@   nopanic
 //@   requires forall k int :: 0 <= k && k < len(rcptsInfo) ==> diagOK(rcptsInfo[k].DiagnosticCode)
-//@   modifies gRcptFields, gHdrPart, gHdrParts
+//@   modifies gRcptFields, gHdrPart, gHdrParts, fsSt, fsData
 //@   ensures result1 == nil ==> gRcptFields == old(gRcptFields) + len(rcptsInfo) && gHdrPart == failedHeader && gHdrParts == old(gHdrParts) + 1
 //@   ensures result1 == nil ==> hdrGet(result0, "To") == envelope.To && hdrGet(result0, "From") == envelope.From && hdrGet(result0, "Auto-Submitted") == "auto-replied" && hdrGet(result0, "Message-Id") == envelope.MsgID
 //@   assert-call writeMachineReadablePart : $rcptsInfo == rcptsInfo && $mtaInfo == mtaInfo && $utf8 == utf8
